@@ -632,29 +632,30 @@ impl<'r> Lowerer<'r> {
     ) -> Value {
         let name = func.name;
 
+        // The arguments are dropped by the callee, but only once the call
+        // is made. While the remaining arguments are evaluated (which might
+        // return early, e.g. with `?`), the earlier ones are still ours.
         let mut args = Vec::new();
         if let Some((receiver, ty)) = receiver {
             let ty = self.type_info.convert(&ty);
-            // This values will be dropped by the callee
-            let tmp = self.undropped_tmp();
-            self.vars.push((tmp.clone(), ty));
-
+            let tmp = self.tmp(ty);
             self.do_assign(Place::new(tmp.clone(), ty), ty, receiver);
             args.push(tmp);
         }
 
-        args.extend(arguments.iter().map(|a| {
+        for a in arguments {
             let ty = self.type_info.type_of(a);
             let ty = self.type_info.convert(&ty);
             let op = self.expr(a);
-
-            // These values will be dropped by the callee
-            let tmp = self.undropped_tmp();
-            self.vars.push((tmp.clone(), ty));
-
+            let tmp = self.tmp(ty);
             self.do_assign(Place::new(tmp.clone(), ty), ty, op);
-            tmp
-        }));
+            args.push(tmp);
+        }
+
+        // These values will be dropped by the callee
+        for arg in &args {
+            self.remove_live_variable(arg);
+        }
 
         let mir_signature = ty::Signature {
             parameter_types: func
@@ -783,20 +784,32 @@ impl<'r> Lowerer<'r> {
         let ty = self.type_info.type_of(id);
         let ty = self.type_info.convert(&ty);
 
+        // Evaluate all fields before the record is created, so that the
+        // record is never live while only some of its fields are initialized
+        // (a field might return early, e.g. with `?`).
+        let fields: Vec<_> = record
+            .fields
+            .iter()
+            .map(|(s, expr)| {
+                let op = self.expr(expr);
+                let field_ty = self.type_info.type_of(expr);
+                let field_ty = self.type_info.convert(&field_ty);
+                let var = self.assign_to_var(op, field_ty);
+                (**s, var, field_ty)
+            })
+            .collect();
+
         let to = self.tmp(ty);
 
-        for (s, expr) in &record.fields {
-            let op = self.expr(expr);
-            let field_ty = self.type_info.type_of(expr);
-            let field_ty = self.type_info.convert(&field_ty);
+        for (s, var, field_ty) in fields {
             self.do_assign(
                 Place {
                     var: to.clone(),
                     root_ty: ty,
-                    projection: vec![Projection::Field(**s)],
+                    projection: vec![Projection::Field(s)],
                 },
                 field_ty,
-                op,
+                Value::Move(var),
             );
         }
 
@@ -847,10 +860,6 @@ impl<'r> Lowerer<'r> {
 
         let unit_tmp = self.tmp(TyRef::UNIT);
         for expr in list {
-            let list_var = Value::Clone(Place::new(tmp.clone(), ty));
-            let list_var = self.assign_to_var(list_var, ty);
-            self.remove_live_variable(&list_var);
-
             let elem = self.expr(expr);
             let elem_ty = self.type_info.type_of(expr);
             let elem_ty = self.type_info.convert(&elem_ty);
@@ -862,6 +871,12 @@ impl<'r> Lowerer<'r> {
                 elem_ty,
                 elem,
             );
+
+            // Both arguments are dropped by `push`, so they are only
+            // created once the element can no longer return early.
+            let list_var = Value::Clone(Place::new(tmp.clone(), ty));
+            let list_var = self.assign_to_var(list_var, ty);
+            self.remove_live_variable(&list_var);
 
             let func_ref =
                 self.find_method(TypeId::of::<ErasedList>(), "push");
